@@ -716,6 +716,12 @@ func flagTry(in ssa.Instruction, f *types.Var) bool {
 		return true
 	}
 	c := calleeOf(in)
+	// a try method of the owner itself (func (s *Striped) tryLock() bool { return s.busy.Load() == 0 && s.busy.CompareAndSwap(0, 1) })
+	if c != nil && c.Pkg != nil && strings.HasPrefix(c.Pkg.Pkg.Path(), modPath) && len(origin(c).Blocks) > 0 {
+		if _, isCall := in.(*ssa.Call); isCall && tryMethod(origin(c), []*types.Var{f}, 0) {
+			return true
+		}
+	}
 	inner := innerWordFields(f)
 	if c == nil || len(inner) == 0 || !sameField(recvField(in), f) || c.Pkg == nil || !strings.HasPrefix(c.Pkg.Pkg.Path(), modPath) {
 		return false
